@@ -11,11 +11,12 @@ import (
 // channel so un-rewritten observers still see it.
 
 type chanState struct {
-	obj    Obj
-	cap    int
-	buf    []any
-	closed bool
-	real   any
+	obj      Obj
+	cap      int
+	buf      []any
+	closed   bool
+	real     any
+	timerFed bool // written by timer fires (scheduler events): part of the state key
 }
 
 func chanPtr(ch any) uintptr {
